@@ -20,6 +20,7 @@ from harness import values as V
 from harness.core import cbool, clist, cnat, copt, cstr, err_name
 
 PID = "C17"
+TRANSLATE = ["EqSanitize.v"]    # translator tie: _sanitize_user_name regenerated from /repo (coq/gen_proofs/EqSanitize.v)
 FAILING = "(C17.failing RES DIRSTORES)"
 SHARD = 300
 RULE = ("name lists over an adversarial alphabet (reserved method names, names shaped like generated "
